@@ -135,6 +135,7 @@ def _run(tape, out, elfi, root):
         pool = elfi.ArrayPool(list(stores), name=pool_name, prefix=root)
     else:
         pool = elfi.OutputPool(list(stores))
+    loc = {'prefix': root, 'name': pool_name}      # where the pool folder currently lives
     version = 0
     specs = {0: spec}
     user_model, _ = sp.build_model(elfi, spec, tag='user')
@@ -192,8 +193,8 @@ def _run(tape, out, elfi, root):
         else:
             op = tape.choice('op', ['run', 'rerun_same', 'rerun_larger', 'rerun_smaller',
                                     'remove_store', 'replace_node', 'reopen', 'run'] +
-                             (['reopen', 'rerun_larger', 'abandon_open', 'abandon_open']
-                              if on_disk else []))
+                             (['reopen', 'rerun_larger', 'abandon_open', 'abandon_open',
+                               'close_open'] if on_disk else []))
         if forced_ops:
             # risky order on purpose: save, extend, end the process without close, reopen, extend
             op = forced_ops.pop(0)
@@ -283,7 +284,7 @@ def _run(tape, out, elfi, root):
                 # pickles still say what the last save() said; a new process opens the pool
                 pool.flush()
                 abandoned.append(pool)
-                pool = elfi.ArrayPool.open(pool_name, prefix=root)
+                pool = elfi.ArrayPool.open(loc['name'], prefix=loc['prefix'])
                 held = {s_: saved_held[0].get(s_, 0) for s_ in pool.stores}
                 held_max = saved_max[0]
                 after = {s_: len(pool.stores[s_]) if pool.stores[s_] is not None else 0
@@ -296,7 +297,25 @@ def _run(tape, out, elfi, root):
                 out.probes['pool_abandon_open'] += 1
             else:
                 pool.close()
-                pool = elfi.ArrayPool.open(pool_name, prefix=root)
+                if tape.chance('pool_folder_moved', 1, 3):
+                    # the closed pool folder is moved to another prefix and / or renamed before
+                    # it is opened again (open(name, prefix) exists for exactly this); from now
+                    # on the pool lives there, and that is where later saves must go
+                    mk = tape.choice('move_kind', ['prefix', 'name', 'both'])
+                    new = dict(loc)
+                    if mk in ('prefix', 'both'):
+                        new['prefix'] = os.path.join(root, 'moved%d' % step)
+                        os.makedirs(new['prefix'])
+                    if mk in ('name', 'both'):
+                        new['name'] = '%s_r%d' % (pool_name, step)
+                    shutil.move(os.path.join(loc['prefix'], loc['name']),
+                                os.path.join(new['prefix'], new['name']))
+                    loc.update(new)
+                    out.probes['pool_folder_moved_' + mk] += 1
+                    if not forced_ops:
+                        # use the moved pool: extend it, close it, open it again
+                        forced_ops.extend(['rerun_larger', 'close_open'])
+                pool = elfi.ArrayPool.open(loc['name'], prefix=loc['prefix'])
                 after = {s: len(pool.stores[s]) if pool.stores[s] is not None else 0
                          for s in pool.stores}
                 if after != before:
@@ -406,6 +425,15 @@ def _run(tape, out, elfi, root):
                 sig = 'raises-' + str(eb)
                 if eb == 'KeyError' and 'operation' in str(err):
                     sig = 'override-of-pool-supplied-node'
+                elif eb == 'LinAlgError' and ea is None and f3_shape and any(
+                        c['node'] == 'sim' and (run_.req_info.get(c['req']) or {}).get('held')
+                        for c in sp.REC.calls):
+                    # F3 again, seen through its consequence: the parameters came from the pool,
+                    # the simulator re-ran with other noise in a pool-hit batch, and the (other)
+                    # population happens to be degenerate (1-2 particles) where the pool-free
+                    # one is not; only this data-dependent numerical failure is mapped, every
+                    # other exception keeps its own signature
+                    sig = 'params-stored+stochastic-node-reran'
                 out.violate('same-as-pool-free', sig, step=step, with_pool=eb, without=ea,
                             msg=str(err)[:200], stores=stored_now, method=wl['method'])
             return
